@@ -1,6 +1,7 @@
 //! Shared parts of the per-property harness binaries (src/bin/Cxx.rs, generated).
 pub mod out;
 pub mod rng;
+pub mod storegen;
 pub mod sx;
 
 use std::io::BufRead;
